@@ -555,6 +555,8 @@ partial def aeOfJson? (j : Json) : Option ExprImg.AE := do
   | "plus" => do pure (.plus (← (j.getArrVal? 1).toOption >>= aeOfJson?) (← (j.getArrVal? 2).toOption >>= aeOfJson?))
   | "minus" => do pure (.minus (← (j.getArrVal? 1).toOption >>= aeOfJson?) (← (j.getArrVal? 2).toOption >>= aeOfJson?))
   | "mul" => do pure (.mul (← (j.getArrVal? 1).toOption >>= aeOfJson?) (← (j.getArrVal? 2).toOption >>= aeOfJson?))
+  | "greatest" => do pure (.greatest (← (j.getArrVal? 1).toOption >>= aeOfJson?) (← (j.getArrVal? 2).toOption >>= aeOfJson?))
+  | "least" => do pure (.least (← (j.getArrVal? 1).toOption >>= aeOfJson?) (← (j.getArrVal? 2).toOption >>= aeOfJson?))
   | _ => none
 
 def runExprImg (c : Json) : Option Json := do
